@@ -69,3 +69,31 @@ Proof.
   - apply field_okb_ok. vm_compute. reflexivity.
   - vm_compute. reflexivity.
 Qed.
+
+(* ---------- delta snapshots: non-vacuity of C05.Delta.delta_roundtrip on the regenerated table.
+   a = example_mem plus a WHFast Jacobi array of one particle; b = the same state after reset_integrator()
+   (p_jh absent, N_allocated 0) and with a different time. *)
+From RV Require Import C05.Delta.
+Definition example_a : key -> mval :=
+  apply_writes example_mem [(("ri_whfast.N_allocated"%string, O), MB [1; 0; 0; 0]); (("ri_whfast.p_jh"%string, O), MP (Some (repeat 9 128)))].
+Definition example_b : key -> mval :=
+  apply_writes example_mem [(("t"%string, O), MB [1; 2; 3; 4; 5; 6; 7; 8]); (("ri_whfast.p_jh"%string, O), MP (Some []))].
+Definition arrays_zero_length (m : key -> mval) : key -> mval :=
+  fun k => match m k with MP None => if existsb (fun d => existsb (key_eqb k) (parts d)) (live table) then MP (Some []) else MP None | v => v end.
+
+Lemma example_delta :
+  mem_wf particle_size table example_a /\ mem_wf particle_size table (arrays_zero_length example_b) /\
+  absent_normal table (arrays_zero_length example_b) /\ fixed_kept table example_a (arrays_zero_length example_b) /\
+  In (mkfield 104 []) (delta (flat_map (wdesc particle_size example_a) (live table))
+                             (flat_map (wdesc particle_size (arrays_zero_length example_b)) (live table))) /\
+  List.length (delta (flat_map (wdesc particle_size example_a) (live table))
+                     (flat_map (wdesc particle_size (arrays_zero_length example_b)) (live table))) = 2%nat.
+Proof.
+  assert (A : forallb (mem_okb particle_size example_a) (live table) = true) by (vm_compute; reflexivity).
+  assert (B : forallb (mem_okb particle_size (arrays_zero_length example_b)) (live table) = true) by (vm_compute; reflexivity).
+  assert (C : forallb (absent_okb (arrays_zero_length example_b)) (live table) = true) by (vm_compute; reflexivity).
+  assert (D : forallb (fixed_keptb example_a (arrays_zero_length example_b)) (live table) = true) by (vm_compute; reflexivity).
+  rewrite forallb_forall in A, B, C, D.
+  split; [exact A|]. split; [exact B|]. split; [exact C|]. split; [exact D|].
+  split; vm_compute; auto.
+Qed.
